@@ -260,24 +260,11 @@ impl CheckpointManager {
 
     /// Delete a checkpoint by ID or name.
     pub async fn delete(&self, id_or_name: &str) -> Result<()> {
-        let checkpoints = {
-            let blob = self.blob.lock().await;
-            CheckpointStorage::list(&blob).await?
-        };
-
-        let artifact_id = checkpoints
-            .into_iter()
-            .find(|cp| cp.id == id_or_name || cp.name == id_or_name)
-            .map(|cp| cp.artifact_id);
-
-        match artifact_id {
-            Some(id) => {
-                let blob = self.blob.lock().await;
-                CheckpointStorage::delete(&id, &blob).await?;
-                Ok(())
-            },
-            None => Err(CheckpointError::NotFound(id_or_name.to_string())),
-        }
+        // Same resolution as `rollback`: an id match wins over a (newer) checkpoint that merely
+        // carries the string as its name, so deleting by id never removes another checkpoint.
+        let blob = self.blob.lock().await;
+        let artifact_id = CheckpointStorage::find_by_id_or_name(id_or_name, &blob).await?;
+        CheckpointStorage::delete(&artifact_id, &blob).await
     }
 
     /// Returns whether auto-checkpoints are enabled for destructive operations.
